@@ -1,4 +1,13 @@
 import Bmc.Proofs.C02
+import Bmc.Proofs.GenKeys.TranslatedOk
+import Bmc.Proofs.GenKeys.SIK
+import Bmc.Proofs.GenKeys.Rakp2
+import Bmc.Proofs.GenKeys.Rakp3
+import Bmc.Proofs.GenKeys.ICV
+import Bmc.Proofs.GenKeys.KConstant
+import Bmc.Proofs.GenKeys.Tables
+import Bmc.Proofs.GenKeys.Integrity
+import Bmc.Proofs.GenKeys.Cipher
 #print axioms Bmc.Proofs.C02.icvOf_spec
 #print axioms Bmc.Proofs.C02.session_sound
 #print axioms Bmc.Proofs.C02.wrong_code_is_password_error
@@ -6,3 +15,21 @@ import Bmc.Proofs.C02
 #print axioms Bmc.Proofs.C02.bad_status_or_tag
 #print axioms Bmc.Proofs.C02.truncated_reply_is_not_a_reply
 #print axioms Bmc.Proofs.C02.only_truncated_replies_no_session
+#print axioms Bmc.Proofs.GenKeys.translated_ok
+#print axioms Bmc.Proofs.GenKeys.hashOf_ok
+#print axioms Bmc.Proofs.GenKeys.calculateSIK_input_eq
+#print axioms Bmc.Proofs.GenKeys.calculateRAKPMessage2AuthCode_input_eq
+#print axioms Bmc.Proofs.GenKeys.calculateRAKPMessage3AuthCode_input_eq
+#print axioms Bmc.Proofs.GenKeys.calculateRAKPMessage4ICV_input_eq
+#print axioms Bmc.Proofs.GenKeys.calculateRAKPMessage4ICV_mac
+#print axioms Bmc.Proofs.GenKeys.K_constant_eq
+#print axioms Bmc.Proofs.GenKeys.K_input_eq
+#print axioms Bmc.Proofs.GenKeys.session_k1_k2
+#print axioms Bmc.Proofs.GenKeys.spec_k_is_K_input
+#print axioms Bmc.Proofs.GenKeys.authHash_is_table
+#print axioms Bmc.Proofs.GenKeys.icvLen_is_table
+#print axioms Bmc.Proofs.GenKeys.constructors_are_hmac
+#print axioms Bmc.Proofs.GenKeys.truncatedHash_Size_eq
+#print axioms Bmc.Proofs.GenKeys.algorithmHasher_is_integMac
+#print axioms Bmc.Proofs.GenKeys.algorithmCipher_key
+#print axioms Bmc.Proofs.GenKeys.algorithmCipher_key_is_take16
